@@ -57,7 +57,12 @@ CFG = dict(
          "the bubble so that timers fire), 2..4 batches, direct / Proxy / Demux, and random ticks in a third of (B); (H) ONE Server, two connections: k in {1, 8, 9} calls of an "
          "earlier connection A are in flight at their gated handlers when A's transport fails (both directions), the handlers return afterwards, "
          "then ordinary calls on connection B of the same Server (direct / Proxy / Demux): each must get the reply to its own request; (I) every "
-         "third unary call of every family spells its method WITHOUT the leading slash (the server accepts both spellings); every history judged by spec_c01",
+         "third unary call of every family spells its method WITHOUT the leading slash (the server accepts both spellings); (J) in (G) the clock "
+         "also advances INSIDE a batch of 9 / 10 / 12 calls (100 ms, 300 ms, 6 s) when every request has reached the server and no handler has "
+         "returned (a request is waiting for a worker); (K) the write fault ACKNOWLEDGEMENT LOST: the Write of a call's request hands the envelope "
+         "to the wire and then returns an error (context and read loop alive): exhaustive next to 0..2 ordinary calls, direct / Proxy / Demux, and "
+         "in an eighth of (B); such a call may fail, its handler must not run twice (its handler entries are recorded as HStS n; its envelopes are "
+         "not judged by the wire predicates); every history judged by spec_c01",
     assumptions=["payload bytes are identified by a 59-bit hash taken at the moment of each observation (a collision could hide, never "
                  "create, a difference)",
                  "handler invocation and call are linked by a request-metadata tag (sy-c), i.e. through the same envelope; plain calls "
